@@ -598,6 +598,28 @@ def rule_match(fx, rep):
     rep.obligation(good)
     if not good:
         bad("install", "the position command does not install a fresh game (Game::new() / from_fen) only after all moves were applied", ex)
+    # every move of the list is applied: the loop that plays the moves is left towards the installation only when the list is
+    # exhausted (the `None` of the iterator), never on a condition on the game (a "game is over" test drops the rest of a legal game)
+    if good and mk:
+        mkb = mk[0][0]
+        loop = {x for x in ex.reachable(mkb) if mkb in ex.reachable(x)}
+        inst = [bb for bb in sorted(region) for s_ in ex.blocks[bb]["stmts"]
+                if s_["k"] == "assign" and s_["lhs"]["l"] == 1 and [p_.get("n") for p_ in s_["lhs"].get("p", []) if isinstance(p_, dict)] == ["game"]]
+        early = None
+        for a in sorted(loop):
+            t_ = ex.blocks[a]["term"]
+            for sx in ex.succ(a):
+                if sx in loop or not any(i_ in ex.reachable(sx) or i_ == sx for i_ in inst):
+                    continue
+                n += 1
+                txt = show(ex.expr(t_["discr"], expand_named=True, at=a)) if t_["k"] == "switch" else ""
+                is_next = t_["k"] == "switch" and ("Iterator>::next" in txt or "Iterator::next" in txt)
+                rep.obligation(is_next)
+                if not is_next and early is None:
+                    early = (a, t_.get("line"), txt[:100])
+        if early is not None:
+            bad("all-moves", f"the loop that plays the moves of the position command can be left before the move list is exhausted (line {early[1]}, on `{early[2]}`): "
+                "the remaining moves of a legal game are silently dropped and an earlier position is installed", ex, early[1])
     rep.rule("C17-MATCH", n, 4, ok, "move matching by (from, to, promotion) and game installation")
 
 
@@ -607,6 +629,9 @@ SQ = "src/chess/square.rs"
 _IMP = ("    combinator::{eof, map, opt, value},", "    combinator::{eof, map, opt, value, verify},")
 _TUP = "        tuple((uci_square, uci_square, opt(uci_promotion))),\n        |(src, dst, promotion)| UciMove {"
 MUTANTS = [
+    {"name": "position stops applying moves at a fifty-move / dead-material position (seed C17-8a)", "expect": "C17-MATCH/all-moves",
+     "edits": [("src/engine/uci/mod.rs", "                for mv in moves {\n                    let matching_move = game.moves().expect_matching(mv.src, mv.dst, mv.promotion);\n                    game.make_move(matching_move);\n                }\n\n                self.game = game;",
+                "                for mv in moves {\n                    if game.is_stalemate_by_fifty_move_rule() || game.is_stalemate_by_insufficient_material() {\n                        break;\n                    }\n\n                    let matching_move = game.moves().expect_matching(mv.src, mv.dst, mv.promotion);\n                    game.make_move(matching_move);\n                }\n\n                self.game = game;")]},
     {"name": "move parser accepts a promotion suffix only on a straight push (seed C17-7b)", "expect": "C17-FILTER/uci_move",
      "edits": [(P, _IMP[0], _IMP[1]),
                (P, "fn uci_move(input: &str)", "fn is_promotion_step(src: Square, dst: Square) -> bool {\n    src.file() == dst.file() && matches!((src.rank(), dst.rank()), (crate::chess::square::Rank::R7, crate::chess::square::Rank::R8) | (crate::chess::square::Rank::R2, crate::chess::square::Rank::R1))\n}\n\nfn uci_move(input: &str)"),
